@@ -23,6 +23,15 @@ echo "## suite with patch" >> "$log"
 cargo test ${JOBS:-} --workspace --no-fail-fast --offline ${SUITEFLAGS:-} > "$dst/suite_with_patch.log" 2>&1
 failed=$(grep -E "^test .* \.\.\. FAILED" "$dst/suite_with_patch.log" | sed 's/^test //; s/ \.\.\. FAILED//' | sort | tr '\n' ' ')
 passed=$(grep -cE "^test .* \.\.\. ok" "$dst/suite_with_patch.log")
+# rise::tst::reduction runs under a wall-clock time limit and fails on a loaded machine whatever the patch: when it is
+# among the failures it is run again on its own (up to three times); a pass there counts
+if echo "$failed" | grep -q "rise::tst::reduction"; then
+  for try in 1 2 3; do
+    if cargo test ${JOBS:-} --offline ${SUITEFLAGS:-} --test entry rise::tst::reduction >> "$dst/suite_with_patch.log" 2>&1; then
+      failed=$(echo "$failed" | sed 's/rise::tst::reduction //'); passed=$((passed+1)); echo "## rise::tst::reduction passed when run alone (try $try)" >> "$log"; break
+    fi
+  done
+fi
 git checkout -q -- .
 cp $SD/patch.diff "$dst/patch.diff"; cp $SD/demo.rs "$dst/demo.rs"; [ -f $SD/notes.md ] && cp $SD/notes.md "$dst/agent_notes.md"
 expected="arith2::redundancy_matching_bug2 arith2::redundancy_matching_bug3 lambda::redundancy_matching_bug "
